@@ -10,6 +10,7 @@ CONSTANTS Loop = "%s"
  Echo = %s
  N = %d
  PromptEcho = %s
+ Notifs = %d
  Policies = {"now", "late", "never"}
 INVARIANTS TypeOK OwnReply NoLoss
 %s
@@ -17,8 +18,63 @@ CHECK_DEADLOCK FALSE
 """
 
 
-def rl_cfg(spec, loop, echo, n, prompt, extra):
-    return RL_CFG % (spec, loop, "TRUE" if echo else "FALSE", n, "TRUE" if prompt else "FALSE", extra)
+def rl_cfg(spec, loop, echo, n, prompt, extra, notifs=0):
+    return RL_CFG % (spec, loop, "TRUE" if echo else "FALSE", n, "TRUE" if prompt else "FALSE", notifs, extra)
+
+
+def notifications(ctx, thorough, rng):
+    """Outside the listed properties (a notification is not a reply): NcReadLoop.tla with asynchronous notifications of a
+    subscription. TLC: every notification is filed whole and in order when the transport does not echo (NotifExact); with an
+    echoing transport it finds behaviours in which a notification still in the buffer is dropped together with the echo of
+    the next request. The behaviours are replayed and the code must agree with the model about WHICH notifications survive;
+    disagreements are recorded as notes, never as verdicts."""
+    note = ctx.notes.setdefault("notifications_outside_property", {})
+    r = ctx.tlc("MCNcReadLoop", cfg="rl.cfg", files={"rl.cfg": rl_cfg("Spec", "v2", False, 2, False, "INVARIANT NotifExact", notifs=2)}, workers=8, timeout=900)
+    note["model_no_echo_NotifExact_holds"] = not r["violated"]
+    r = ctx.tlc("MCNcReadLoop", cfg="rl.cfg", files={"rl.cfg": rl_cfg("Spec", "v2", True, 2, False, "INVARIANT NotifExact", notifs=1)}, workers=8, timeout=900)
+    note["model_echo_NotifExact_violated"] = bool(r["violated"])
+    scns = []
+    for echo in (True, False):
+        r = ctx.tlc("NcReadLoopScn", cfg="rls.cfg", files={"rls.cfg": rl_cfg("HSpec", "v2", echo, 1, False, "CONSTRAINT Emit", notifs=2 if thorough else 1)}, workers=8, timeout=1500)
+        if r["violated"] or not r["ok"]:
+            raise ToolError("NcReadLoopScn (notifications) failed:\n" + r["stdout"][-1500:])
+        scns += r["scn"]
+    lost = [s for s in scns if not all(s["nstored"])]
+    kept = [s for s in scns if all(s["nstored"])]
+    pick = rng.sample(lost, min(len(lost), 400 if thorough else 100)) + rng.sample(kept, min(len(kept), 400 if thorough else 60))
+    out = []
+    for i, s in enumerate(pick):
+        d = dict(s)
+        d["version"] = ("1.0", "1.1")[i % 2]
+        d["burst"] = i % 4 < 2
+        out.append(d)
+    res = ctx.run_harness("isolated", out, args=["c08rl"], timeout=3000, env={"VERIF_WORKERS": "12"})
+    agree = disagree = 0
+    examples = []
+    for rr in res:
+        sc = out[rr["id"]]
+        ctx.count()
+        if rr.get("died"):
+            ctx.violation("C08:readloop:process-died", "the process died replaying a read-loop behaviour with notifications:\n" + rr.get("stderr", "")[-1500:], sc)
+            continue
+        if not rr.get("ok") and rr.get("sig") not in (None, "TOOL"):
+            # the replies of these behaviours are judged as always (own reply, nothing lost)
+            again = ctx.run_harness("isolated", [sc], args=["c08rl"], env={"VERIF_WORKERS": "1"})
+            if again and not again[0].get("ok") and again[0].get("sig") not in (None, "TOOL"):
+                ctx.violation(again[0]["sig"], again[0]["detail"], sc)
+            continue
+        got = (rr.get("extra") or {}).get("nstored")
+        if got is None:
+            continue
+        if list(got) == list(sc["nstored"]):
+            agree += 1
+        else:
+            disagree += 1
+            if len(examples) < 3:
+                examples.append({"scenario": sc, "code_stored": got})
+    note.update({"behaviours": len(scns), "predicting_a_lost_notification": len(lost), "replayed": len(out), "code_agrees": agree, "code_disagrees": disagree, "disagreements": examples})
+    ctx.traces_validated += len(res)
+
 
 
 def readloop(ctx, thorough):
@@ -94,6 +150,8 @@ def readloop(ctx, thorough):
                 else:
                     ctx.notes.setdefault("unreproduced_candidates", []).append({"scenario": sc, "first": rr["detail"][:300]})
     ctx.traces_validated += len(res)
+    notifications(ctx, thorough, rng)
+
 
 CFG = """SPECIFICATION Spec
 CONSTANT N = %d
